@@ -74,9 +74,9 @@ Proof.
   intro H. destruct (H _ _ eq_refl eq_refl) as [H1 _]. vm_compute in H1. discriminate.
 Qed.
 
-(** C03-F3: /:a/*c (GET) then /:b/*c (POST); GET /1/2/3 is served by the first rule
+(** C03-F3 (pinned tree, before commit 20f92b3): /:a/*c (GET) then /:b/*c (POST); GET /1/2/3 is served by the first rule
     with the captures {b: 1, c: 2/3} *)
-Lemma F3_refuted :
+Lemma F3_pinned_refuted :
   exists ds q k s segs caps sc,
     served true true true true ds q = Some (ORule 0 caps false, [k]) /\
     nth_error (flat_routes 0 ds) (k_vid k) = Some s /\ sr_rule s = 0 /\
